@@ -21,11 +21,18 @@ def check_translation(chk, table):
     src = os.path.join(V.REPO, table["spec"])
     d = os.path.join(chk.tmp, "pcal-" + table["name"])
     os.makedirs(d, exist_ok=True)
-    dst = os.path.join(d, os.path.basename(src))
+    dst = os.path.join(d, table.get("spec_as") or os.path.basename(src))
     shutil.copy(src, dst)
-    before = T.translation_region(open(dst).read())
     try:
-        V.pcal(d, os.path.basename(src))
+        before = T.translation_region(open(dst).read())
+    except V.Inconclusive:
+        chk.gaps.append("%s: no TLA+ translation checked in (only PlusCal); nothing to compare" % table["name"])
+        return
+    if not before.strip():
+        chk.gaps.append("%s: empty TLA+ translation checked in; nothing to compare" % table["name"])
+        return
+    try:
+        V.pcal(d, os.path.basename(dst))
     except V.Inconclusive as e:
         chk.gaps.append("%s: pcal could not retranslate (%s)" % (table["name"], str(e)[:120]))
         return
